@@ -223,6 +223,76 @@ def scenario_ack(binary, rng):
     return obs
 
 
+def find_leader(nodes):
+    for n in nodes:
+        m = n.metrics(timeout=2.0) if n.alive() else None
+        if m and m.get("state") == "Leader":
+            return n
+    return None
+
+
+def scenario_stale_leader(binary, rng, burst=6):
+    """3 voters; the LEADER is frozen (SIGSTOP) until the others have elected a new one, then it is
+    continued and writes are sent to it at once: it still believes it is the leader (routing = local)
+    but raft.client_write can no longer commit through it.  Such a write must be answered with an
+    error, or - if answered with success - must be served by every node after quiescence."""
+    obs = {"scenario": "stale_leader", "errors": [], "history": []}
+    with Cluster(binary, nodelib.DEFAULT_WORKROOT, "sl") as c:
+        n1 = c.node(1, auto_init=True)
+        n1.start()
+        n1.wait_ready()
+        nodes = [n1]
+        for i in (2, 3):
+            n = c.node(i, join_addr=n1.raft_addr)
+            n.start()
+            try:
+                n.wait_ready(need_leader=False)
+            except RuntimeError as e:
+                obs["errors"].append(str(e)[:300])
+            m, _ = wait_member(n1, i)
+            if not m:
+                obs["errors"].append("node %d did not join" % i)
+            nodes.append(n)
+        keys = ["s%d" % i for i in range(3)]
+        i = 0
+        for k in keys:
+            st, body = n1.publish(k, GROUP, "base-" + k, timeout=10.0)
+            obs["history"].append({"i": i, "node": 1, "op": "pub", "key": k, "value": "base-" + k, "status": st, "body": body[:60]})
+            i += 1
+        old = find_leader(nodes) or n1
+        others = [n for n in nodes if n is not old]
+        old.sigstop()
+        newl, secs = wait_until(lambda: find_leader(others), 25.0)
+        obs["new_leader"] = newl.node_id if newl else None
+        obs["election_wait_s"] = round(secs, 1)
+        if newl:
+            st, body = newl.publish(keys[0], GROUP, "new-leader-write", timeout=10.0)
+            obs["history"].append({"i": i, "node": newl.node_id, "op": "pub", "key": keys[0], "value": "new-leader-write", "status": st, "body": body[:60]})
+            i += 1
+        old.sigcont()
+        for j in range(burst):                      # at once: the old leader has not yet seen the new term
+            k = keys[1 + j % 2]
+            v = "stale-%d" % j
+            if j % 3 == 2:
+                st, body = old.delete_config(k, GROUP, timeout=10.0)
+                obs["history"].append({"i": i, "node": old.node_id, "op": "del", "key": k, "status": st, "body": body[:60]})
+            else:
+                st, body = old.publish(k, GROUP, v, timeout=10.0)
+                obs["history"].append({"i": i, "node": old.node_id, "op": "pub", "key": k, "value": v, "status": st, "body": body[:60]})
+            i += 1
+        time.sleep(3.0)
+        tgt = find_leader(nodes) or others[0]
+        tgt.publish("probe", GROUP, "q")
+        for n in nodes:
+            ok, _ = wait_serves(n, "probe", "q", 40.0)
+            if not ok:
+                obs["errors"].append("node %d does not serve the probe after quiescence" % n.node_id)
+        time.sleep(1.0)
+        obs["final"] = {str(n.node_id): read_all(n, [("", k) for k in keys]) for n in nodes}
+        obs["fatal"] = fatal_storage_errors(c)
+    return obs
+
+
 def scenario_cluster_writes(binary, rng, n_ops=40, fault=None):
     """3 voters; writes addressed to arbitrary nodes; optional fault on a minority
     (kill -9 / SIGSTOP+SIGCONT / restart); after quiescence every live node must serve, for
